@@ -898,4 +898,93 @@ theorem run_sim (cfg : Cfg) (hr : cfg.repaired = true) (h0 : 0 ≤ cfg.minAge) (
     rw [← h2, ← h1]
     exact ⟨by rw [i1], i2, i3⟩
 
+/-! ### port removal and re-creation; the removals the janitor has been scheduled to do -/
+
+theorem removePort_no_port (st : State) (pid : Nat) :
+    (removePort st pid).ports.any (fun q => q.id == pid) = false := by
+  unfold removePort
+  simp only [List.any_filter, List.any_eq_false]
+  intro q _
+  cases h : q.id == pid <;> simp [bne, h]
+
+theorem recreatePort_eq (st : State) (p : Port) :
+    recreatePort st p =
+      { st with ports := st.ports.filter (fun q => q.id != p.id) ++ [p], cache := cacheDrop st.cache [p.id] } := by
+  unfold recreatePort addPort
+  rw [removePort_no_port]
+  rfl
+
+theorem find_filter_self (l : List Port) (x : Nat) :
+    (l.filter (fun q => q.id != x)).find? (fun q => q.id == x) = none := by
+  induction l with
+  | nil => rfl
+  | cons a l ih =>
+    rw [List.filter_cons]
+    by_cases h : a.id = x
+    · simp [bne, h]
+    · have h1 : (a.id != x) = true := by simp [bne, h]
+      have h2 : (a.id == x) = false := by simp [h]
+      rw [h1]; simp only [if_true]; rw [List.find?_cons, h2]; exact ih
+
+theorem find_filter_other (l : List Port) (x pid : Nat) (hne : pid ≠ x) :
+    (l.filter (fun q => q.id != x)).find? (fun q => q.id == pid) = l.find? (fun q => q.id == pid) := by
+  induction l with
+  | nil => rfl
+  | cons a l ih =>
+    rw [List.filter_cons]
+    by_cases h : a.id = x
+    · have h1 : (a.id != x) = false := by simp [bne, h]
+      have h2 : (a.id == pid) = false := by simp [h]; exact fun e => hne e.symm
+      rw [h1]; simp only [Bool.false_eq_true, if_false]; rw [List.find?_cons, h2]; exact ih
+    · have h1 : (a.id != x) = true := by simp [bne, h]
+      rw [h1]; simp only [if_true]; rw [List.find?_cons, List.find?_cons, ih]
+
+theorem findPort_recreate_self (st : State) (p : Port) : findPort (recreatePort st p) p.id = some p := by
+  rw [recreatePort_eq]
+  unfold findPort
+  show List.find? (fun q => q.id == p.id) (st.ports.filter (fun q => q.id != p.id) ++ [p]) = some p
+  rw [List.find?_append, find_filter_self]
+  simp
+
+theorem findPort_recreate_other (st : State) (p : Port) (pid : Nat) (h : pid ≠ p.id) :
+    findPort (recreatePort st p) pid = findPort st pid := by
+  rw [recreatePort_eq]
+  unfold findPort
+  show List.find? (fun q => q.id == pid) (st.ports.filter (fun q => q.id != p.id) ++ [p]) = _
+  rw [List.find?_append, find_filter_other _ _ _ h]
+  have hp : (p.id == pid) = false := by simp; exact fun e => h e.symm
+  cases hfind : List.find? (fun a : Port => a.id == pid) st.ports <;> simp [hp]
+
+/-- Re-creation keeps the cache invariant: the dict of the port is dropped, every other port keeps its type, the store
+is untouched. -/
+theorem recreatePort_ok (st : State) (p : Port) (T : Int) (hok : CacheOK st T) : CacheOK (recreatePort st p) T := by
+  intro pid t v hv
+  rw [recreatePort_eq] at hv
+  obtain ⟨h1, h2⟩ := cacheGet_cacheDrop st.cache [p.id] pid t v hv
+  have hne : pid ≠ p.id := by simpa using h1
+  obtain ⟨a, b⟩ := hok pid t v h2
+  refine ⟨a, ?_⟩
+  have hs : (recreatePort st p).store = st.store := by rw [recreatePort_eq]
+  have ht : ptypeOf (recreatePort st p) pid = ptypeOf st pid := by
+    unfold ptypeOf; rw [findPort_recreate_other st p pid hne]
+  rw [hs, ht]
+  exact b
+
+theorem janitorPending_ok (cfg : Cfg) (st : State) (pending : List Nat) (now T : Int) (hok : CacheOK st T) :
+    CacheOK (janitorPending cfg st pending now).1 T := by
+  unfold janitorPending
+  split
+  · exact hok
+  · split
+    · exact hok
+    · rename_i hne
+      exact hRemove_ok st pending none none T (by intro e; simp [e] at hne) hok
+
+theorem cacheGet_recreate_self (st : State) (p : Port) (t : Int) :
+    cacheGet (recreatePort st p).cache p.id t = none := by
+  rw [recreatePort_eq]
+  cases h : cacheGet (cacheDrop st.cache [p.id]) p.id t with
+  | none => rfl
+  | some v => exact absurd (cacheGet_cacheDrop st.cache [p.id] p.id t v h).1 (by simp)
+
 end QtVerif.History
